@@ -424,7 +424,9 @@ def msgs_strategy():
     burst = st.tuples(st.integers(0, 30), st.integers(0, 30), st.lists(st.sampled_from(["unicast", "rbcast"]), min_size=2, max_size=4)).map(
         lambda t: [[t[0], kind, t[1]] for kind in t[2]])
     # each message is sent twice: cold, then warm
-    return st.lists(st.one_of(single, single, single, burst), min_size=1, max_size=6).map(lambda l: [s for step in l for s in (step, step)])
+    # crossing traffic: messages from different stations in the same instant (path discovery of one interleaves with traffic of the other)
+    cross = st.lists(m, min_size=2, max_size=4)
+    return st.lists(st.one_of(single, single, single, burst, cross, cross), min_size=1, max_size=6).map(lambda l: [s for step in l for s in (step, step)])
 
 
 def plan(tier, seed):
